@@ -1160,19 +1160,17 @@ func (c *Conn) verifyServerCertificate(certificates [][]byte) error {
 			opts := x509.VerifyOptions{
 				Roots:       c.config.RootCAs,
 				CurrentTime: c.config.time(),
-				// DNSName:       c.serverName, // [uTLS]
+				// ECH was rejected: the peer is the client-facing server and must be
+				// authenticated for the public name that was sent in the outer
+				// ClientHello (c.serverName), never for the inner name
+				// (Config.ServerName / InsecureServerNameToVerify).
+				DNSName:       c.serverName,
 				Intermediates: x509.NewCertPool(),
 			}
 
 			// [UTLS SECTION START]
 			if c.config.InsecureSkipTimeVerify {
 				opts.CurrentTime = certs[0].NotAfter
-			}
-
-			if len(c.config.InsecureServerNameToVerify) == 0 {
-				opts.DNSName = c.config.ServerName
-			} else if c.config.InsecureServerNameToVerify != "*" {
-				opts.DNSName = c.config.InsecureServerNameToVerify
 			}
 			// [UTLS SECTION END]
 
